@@ -141,7 +141,7 @@ PROPS = {
                 "non-trivial = history in which at least one KEEPALIVE and one message are written (distinct histories)",
     },
     "C14": {
-        "lean": ["AriVerif.Props.C14"],
+        "lean": ["AriVerif.Props.C14", "AriVerif.Props.C16S"],
         "gen": [],
         "streams": [s_conc.data_stream(["C14"], "data-cosim-startup"), s_wire.stream_writers],
         "trusted": [KERNEL, HARNESS, "the scheduler shim (harness/shim.py): its semantics for Lock/RLock, Queue (FIFO, unbounded), Event, Thread, ThreadPoolExecutor (FIFO work queue, <= n running, shutdown waits), socket (recv returns a non-empty prefix, b'' at EOF; sendall all-or-exception), virtual clock; the real code runs unmodified, module attributes are patched from the harness",
@@ -152,7 +152,7 @@ PROPS = {
                 "the runs, random schedules of the starting thread against writer, reader and proxy; non-trivial = scenario with pipelined requests",
     },
     "C16": {
-        "lean": ["AriVerif.Props.C16", "AriVerif.Props.C04S"],
+        "lean": ["AriVerif.Props.C16", "AriVerif.Props.C16S", "AriVerif.Conc.DataFifo", "AriVerif.Props.C04S"],
         "gen": [],
         "streams": [s_conc.data_stream(["C16"], "data-cosim-outbound"), s_sender.stream, s_real.stream_outbound],
         "trusted": [KERNEL, HARNESS, "the scheduler shim (harness/shim.py): its semantics for Lock/RLock, Queue (FIFO, unbounded), Event, Thread, ThreadPoolExecutor (FIFO work queue, <= n running, shutdown waits), socket (recv returns a non-empty prefix, b'' at EOF; sendall all-or-exception), virtual clock; the real code runs unmodified, module attributes are patched from the harness",
